@@ -84,6 +84,32 @@ type Immutable struct {
 	Line   int
 }
 
+// Guarded: `//@ guarded[C02] region.client: id, sent by sentM` - the listed fields are read and written only while a mutex
+// is held (lock discipline; the executing goroutine's ghost count of held mutexes must be positive at every access in a
+// function under contract). Which mutex is not tracked - the `by` part documents it.
+type Guarded struct {
+	Tags   []string
+	Type   string
+	Fields []string
+	By     string
+}
+
+// AtomicOnly: `//@ atomic[C02] region.client: id` - the listed fields are accessed only as &x.f arguments of sync/atomic
+// functions (decided by a scan of the typed AST of the module, like `immutable`).
+type AtomicOnly struct {
+	Tags   []string
+	Type   string
+	Fields []string
+	File   string
+	Line   int
+}
+
+var atomics []*AtomicOnly
+var atomicRe = regexp.MustCompile(`^atomic(\[[^\]]*\])?\s+([\w.]+)\s*:\s*(.*)$`)
+
+var guardeds []*Guarded
+var guardedRe = regexp.MustCompile(`^guarded(\[[^\]]*\])?\s+([\w.]+)\s*:\s*(.*?)\s+by\s+(\S+)$`)
+
 var immutables []*Immutable
 var immutableRe = regexp.MustCompile(`^immutable(\[[^\]]*\])?\s+([\w.]+)\s*:\s*(.*?)\s+in\s+(\S+)$`)
 
@@ -139,6 +165,36 @@ func parseContractFile(path string, into map[string]*Contract) error {
 			body = pending + body
 			ln = pendingLine
 			pending = ""
+		}
+		if strings.HasPrefix(body, "atomic") {
+			m := atomicRe.FindStringSubmatch(body)
+			if m == nil {
+				return fmt.Errorf("%s:%d: bad atomic line %q", path, ln, body)
+			}
+			a := &AtomicOnly{Type: m[2], Fields: splitNames(m[3]), File: path, Line: ln}
+			for _, t := range strings.Split(strings.Trim(m[1], "[]"), ",") {
+				if t = strings.TrimSpace(t); t != "" {
+					a.Tags = append(a.Tags, t)
+				}
+			}
+			atomics = append(atomics, a)
+			cur = nil
+			continue
+		}
+		if strings.HasPrefix(body, "guarded") {
+			m := guardedRe.FindStringSubmatch(body)
+			if m == nil {
+				return fmt.Errorf("%s:%d: bad guarded line %q", path, ln, body)
+			}
+			g := &Guarded{Type: m[2], Fields: splitNames(m[3]), By: m[4]}
+			for _, t := range strings.Split(strings.Trim(m[1], "[]"), ",") {
+				if t = strings.TrimSpace(t); t != "" {
+					g.Tags = append(g.Tags, t)
+				}
+			}
+			guardeds = append(guardeds, g)
+			cur = nil
+			continue
 		}
 		if strings.HasPrefix(body, "immutable") {
 			m := immutableRe.FindStringSubmatch(body)
